@@ -422,12 +422,12 @@ def dec (p : Prim) (s : Slice) : Outcome (Val × Slice) :=
   | .bytesSnake => do
     let (bs, s) ← decSnake s
     if bs.length % 8 ≠ 0 then .err "text data must be a multiple of 8 bits"
-    else pure (.bytes (bitsToBytes bs), s)
+    else pure (.bytes (bytesOfBits (bs.length / 8) bs), s)
   | .text => do
     let (bs, s) ← decSnake s
     if bs.length % 8 ≠ 0 then .err "text data must be a multiple of 8 bits"
     else
-      let bytes := bitsToBytes bs
+      let bytes := bytesOfBits (bs.length / 8) bs
       if utf8Valid bytes then pure (.bytes bytes, s) else .err "invalid unicode characters in text"
   | .fixedText => do
     let (l, s) ← s.readUint 8
